@@ -144,12 +144,21 @@ def _ids(ck, P, cfg):
         pass
     nids = [0, 1, 2, max_nodes - 1]
     rids = [0, 1, max_thr - 2, max_thr - 1]
+    if getattr(ck, "tier", "quick") == "thorough":
+        # thorough: every thread id the runtime can have, against a spread of ranks (distinctness is checked over all of them)
+        rids = list(range(max_thr))
+        nids = [0, 1, 2, 255, 256, max_nodes - 2, max_nodes - 1]
     problems = []
     words = {}
     n_eval = 0
     m = snd.params[0]["name"]
     d = snd.params[1]["name"]
-    for nid, rid, ph, ph2, seq in itertools.product(nids, rids, (0, 1), (0, 1), (0, 5, (1 << 31) - 1)):
+    full = len(rids) > 8
+    brids = [0, 1, max_thr - 2, max_thr - 1]
+    combos = itertools.product(nids, brids, (0, 1), (0, 1), (0, 5, (1 << 31) - 1))
+    if full:
+        combos = itertools.chain(combos, ((n_, r_, c_, c_, 5) for n_ in nids for r_ in rids for c_ in (0, 1)))
+    for nid, rid, ph, ph2, seq in combos:
         n_eval += 1
         env = {"nid": nid, "rid": rid, "gvt_phase": ph, d: 3, "remote_msg_seq[%d][3]" % ph: seq}
         o = interp.Interp(snd).run(env)
